@@ -172,6 +172,17 @@ class Run:
         """PASS/VIOLATION for a slot decided semantically (truth-table equivalence, table decoding ...): never downgraded."""
         return self.check(cond, rule, func, node, slot, expected, found, extra, strict=True)
 
+    def soft(self, cond, rule, func, node, slot, expected, found=None):
+        """An auxiliary shape match (layout detail): PASS when it matches; when it does not, the detail is *not decided* -
+        recorded as a note, with no effect on the verdict (the clause is then simply not claimed for this tree)."""
+        if found is None:
+            found = astutil.src(node) if hasattr(node, '_fields') else ''
+        if cond:
+            return self.ok(rule, func, node, slot, found=str(found)[:200])
+        self.notes.append(f'NOT-DECIDED {rule} {_fname(func)} [{slot}]: shape not recognised (expected {expected}; found {str(found)[:120]})')
+        self.undecided = getattr(self, 'undecided', 0) + 1
+        return None
+
     def floor(self, rule, n):
         self.floors[rule] = n
 
@@ -255,6 +266,7 @@ class Run:
             'unrecognised': len(unrec),
             'known_findings_reported': len(listed),
             'notes': self.notes,
+            'auxiliary_details_not_decided': getattr(self, 'undecided', 0),
             'exhaustive': False,
         }
         if extra_cov:
